@@ -74,13 +74,18 @@ struct Sim {
     std::vector<int> be_hist;   // earlier byte-order requests on the same table object
     bool macro = false;   // the library objects are copies of the table written with the header's macros (sim/regmacros.c)
     bool lift = false; uint32_t shift = 0;   // the library sees every address of the description moved up by 'shift' (see build)
-    uint32_t up(uint32_t a) const { return a + shift; }
-    RegisterAccess down(RegisterAccess a) const { if (a.code != REG_ACCESS_SUCCESS) a.address -= shift; return a; }
+    // "spread" tables: everything of the description from model address 'split' on (an area behind a gap, and what follows) is moved up by 'spreadD'
+    // for the library, so that neighbouring areas and registers are half the address space and more apart
+    int spread = 0; uint32_t split = 0, spreadD = 0;
+    uint32_t up(uint32_t a) const { return a + shift + (spreadD && a >= split ? spreadD : 0); }
+    RegisterAccess down(RegisterAccess a) const { if (a.code != REG_ACCESS_SUCCESS) { a.address -= shift; if (spreadD && a.address >= split + spreadD) a.address -= spreadD; } return a; }
+    // the length of a range in the library's coordinates (iteration is lenient about holes: a range that crosses the split has to grow by the gap)
+    uint64_t uplen(uint32_t addr, uint32_t len) const { if (!spreadD || addr >= split || (uint64_t)addr + len <= split) return len; uint64_t l = (uint64_t)len + spreadD; uint64_t room = 0x100000000ull - up(addr); return l > room ? room : l; }
     // with a lifted table a request may not run over the end of the address space: returns false if it would (the op is then not executed)
     bool fits_address_space(uint32_t addr, uint64_t n) const { return (uint64_t)addr + shift + n <= 0x100000000ull; }
     // the same as a clamp: a request that would run over the end is cut so that it ends exactly at the last address; false = starts beyond it
     template <class N> bool clamp_n(uint32_t addr, N &n) const {
-        uint64_t a = (uint64_t)addr + shift; if (a > 0xffffffffull) return false;
+        uint64_t a = (uint64_t)addr + shift + (spreadD && addr >= split ? spreadD : 0); if (a > 0xffffffffull) return false;
         uint64_t room = 0x100000000ull - a; if ((uint64_t)n > room) { n = (N)room; COUNT("probe.request_ends_at_last_address"); }
         return true;
     }
@@ -139,6 +144,24 @@ struct Sim {
             for (auto &r : spec.regs) top = std::max(top, (uint64_t)r.addr + wsize(r.type));
             if (top > 0) shift = (uint32_t)(0x100000000ull - top);
         }
+        spreadD = 0; split = 0;
+        if (spread && !lift && spec.areas.size() >= 2) {
+            uint64_t top = 0;
+            for (auto &a : spec.areas) top = std::max(top, (uint64_t)a.base + a.size);
+            for (auto &r : spec.regs) top = std::max(top, (uint64_t)r.addr + wsize(r.type));
+            for (size_t k = 1; k < spec.areas.size(); ++k) {
+                uint64_t prev_end = (uint64_t)spec.areas[k - 1].base + spec.areas[k - 1].size;
+                bool ascending = true; for (size_t q = 1; q < spec.areas.size(); ++q) if (spec.areas[q].base < spec.areas[q - 1].base) ascending = false;
+                if (ascending && spec.areas[k].base > prev_end) {   // a real gap: nothing of the description lies in it?
+                    bool clear = true; for (auto &r : spec.regs) if ((uint64_t)r.addr + wsize(r.type) > prev_end && r.addr < spec.areas[k].base) clear = false;
+                    if (!clear) continue;
+                    split = spec.areas[k].base;
+                    static const uint64_t DS[] = {0x80000000ull, 0x7fffffffull, 0x80000001ull, 0xc0000000ull, 0};
+                    uint64_t d = DS[(spread - 1) % 5]; if (d == 0 || d + top > 0x100000000ull) d = 0x100000000ull - top;
+                    spreadD = (uint32_t)d; COUNT("probe.areas_half_the_address_space_apart"); break;
+                }
+            }
+        }
         areas = (RegisterArea *)calloc(na + 1, sizeof(RegisterArea));
         entries = (RegisterEntry *)calloc(nr + 1, sizeof(RegisterEntry));
         if (macro && na == regsim_macro_nareas && nr == regsim_macro_nentries) { build_from_macros(fresh_storage, keep_flags, old_flags); return; }
@@ -146,7 +169,7 @@ struct Sim {
         for (size_t i = 0; i < na; ++i) {
             const AreaSpec &a = spec.areas[i];
             RegisterArea &A = areas[i];
-            A.base = a.base + shift; A.size = a.size;
+            A.base = up(a.base); A.size = a.size;
             A.flags = (uint16_t)(((a.flags & AF_R) ? REG_AF_READABLE : 0) | ((a.flags & AF_W) ? REG_AF_WRITEABLE : 0) | ((a.flags & AF_SKIP) ? REG_AF_SKIP_DEFAULTS : 0));
             if (a.mem) {
                 if (fresh_storage) { mem[i].reset(new GuardedBlock(a.size * 2)); }
@@ -161,7 +184,7 @@ struct Sim {
         for (size_t i = 0; i < nr; ++i) {
             const RegSpec &r = spec.regs[i];
             RegisterEntry &E = entries[i];
-            E.type = (RegisterType)r.type; E.address = r.addr + shift; E.default_value = mkvalu(r.type, r.def);
+            E.type = (RegisterType)r.type; E.address = up(r.addr); E.default_value = mkvalu(r.type, r.def);
             E.user = (void *)&spec.regs[i];
             switch (r.ck) {
             case CK_NONE: E.check.type = REGV_TYPE_TRIVIAL; break;
@@ -301,15 +324,15 @@ struct RegHarness : Harness {
     }
     std::vector<std::string> probes(const std::string &p) const override {
         if (p == "C01") return {"handle_eq_entries", "handle_beyond", "float_nan", "float_inf", "float_subnormal", "float_negative_zero", "type_mismatch_refused",
-                                "constraint_refused", "always_fail_refused", "set_accepted", "unsafe_bypasses_constraint", "callback_area_set", "get_undecodable_storage", "big_endian_table", "sanitise_left_through_error_path", "first_init_failed_then_retried", "value_objects_with_stale_octets", "byte_order_requested_repeatedly", "table_written_with_header_macros", "table_ends_at_top_of_address_space", "area_wider_than_64k_words"};
+                                "constraint_refused", "always_fail_refused", "set_accepted", "unsafe_bypasses_constraint", "callback_area_set", "get_undecodable_storage", "big_endian_table", "sanitise_left_through_error_path", "first_init_failed_then_retried", "value_objects_with_stale_octets", "byte_order_requested_repeatedly", "areas_half_the_address_space_apart", "table_written_with_header_macros", "table_ends_at_top_of_address_space", "area_wider_than_64k_words"};
         if (p == "C02") return {"write_inside_64bit_register", "partial_overlap_violates_constraint", "block_spans_two_areas", "block_into_readonly", "block_into_hole",
-                                "block_write_accepted", "block_decode_failure", "zero_length_write", "readonly_not_at_request_start", "reinit_after_registers_removed", "block_of_64k_words_or_more", "value_objects_with_stale_octets", "byte_order_requested_repeatedly", "table_written_with_header_macros", "table_ends_at_top_of_address_space", "area_wider_than_64k_words", "request_ends_at_last_address"};
+                                "block_write_accepted", "block_decode_failure", "zero_length_write", "readonly_not_at_request_start", "reinit_after_registers_removed", "block_of_64k_words_or_more", "value_objects_with_stale_octets", "byte_order_requested_repeatedly", "areas_half_the_address_space_apart", "table_written_with_header_macros", "table_ends_at_top_of_address_space", "area_wider_than_64k_words", "request_ends_at_last_address"};
         if (p == "C03") return {"read_write_only_area_mid_area", "read_spans_two_areas", "read_into_hole", "zero_length_read", "iteration_starts_in_gap", "iteration_starts_mid_register",
-                                "iteration_stopped_by_callback", "iteration_negative_callback", "iteration_visits_several", "reinit_after_registers_removed", "area_without_read_callback", "value_objects_with_stale_octets", "byte_order_requested_repeatedly", "table_written_with_header_macros", "table_ends_at_top_of_address_space", "area_wider_than_64k_words", "request_ends_at_last_address"};
+                                "iteration_stopped_by_callback", "iteration_negative_callback", "iteration_visits_several", "reinit_after_registers_removed", "area_without_read_callback", "value_objects_with_stale_octets", "byte_order_requested_repeatedly", "areas_half_the_address_space_apart", "table_written_with_header_macros", "table_ends_at_top_of_address_space", "area_wider_than_64k_words", "request_ends_at_last_address"};
         if (p == "C04") return {"defect_no_areas", "defect_areas_swapped", "defect_area_overlap", "defect_regs_swapped", "defect_reg_overlap", "defect_reg_straddles_area_end",
-                                "defect_reg_in_hole", "defect_bad_default", "wellformed_accepted", "restart_over_surviving_callback_storage", "ops_report_uninitialised", "empty_area_between_populated", "reinit_of_initialised_table_rejected", "reinit_after_registers_removed", "value_objects_with_stale_octets", "byte_order_requested_repeatedly", "table_written_with_header_macros", "table_ends_at_top_of_address_space", "area_wider_than_64k_words"};
+                                "defect_reg_in_hole", "defect_bad_default", "wellformed_accepted", "restart_over_surviving_callback_storage", "ops_report_uninitialised", "empty_area_between_populated", "reinit_of_initialised_table_rejected", "reinit_after_registers_removed", "value_objects_with_stale_octets", "byte_order_requested_repeatedly", "areas_half_the_address_space_apart", "table_written_with_header_macros", "table_ends_at_top_of_address_space", "area_wider_than_64k_words"};
         return {"invariant_checked_ops", "refused_op_left_storage_unchanged", "bit_set_exact", "bit_clear_exact", "bit_op_refused_signed_or_float", "sanitise_reset_some_kept_some",
-                "corrupt_then_sanitise", "block_write_refused_by_constraint", "sanitise_left_through_error_path", "sanitise_with_io_error_kept_valid_registers", "reinit_after_registers_removed", "value_objects_with_stale_octets", "byte_order_requested_repeatedly", "table_written_with_header_macros", "table_ends_at_top_of_address_space", "area_wider_than_64k_words", "request_ends_at_last_address"};
+                "corrupt_then_sanitise", "block_write_refused_by_constraint", "sanitise_left_through_error_path", "sanitise_with_io_error_kept_valid_registers", "reinit_after_registers_removed", "value_objects_with_stale_octets", "byte_order_requested_repeatedly", "areas_half_the_address_space_apart", "table_written_with_header_macros", "table_ends_at_top_of_address_space", "area_wider_than_64k_words", "request_ends_at_last_address"};
     }
     Json describe(const std::string &p) const override {
         Json d = Json::obj();
@@ -590,7 +613,7 @@ struct RegHarness : Harness {
         if (!macro && prop != "C04" && r.chance(1, t.thorough() ? 1500 : 4000)) { static const int64_t BN[] = {65537, 65600, 66000, 70000}; bulk = BN[r.below(4)]; ts = Sim::bulk_spec((size_t)bulk, r.chance(1, 2)); }
         std::vector<std::string> kinds;
         if (prop == "C01") kinds = {"set", "set", "set", "set", "set_unsafe", "get", "get", "default", "corrupt", "sanitise_any"};
-        else if (prop == "C02") kinds = {"bw", "bw", "bw", "bw", "bw", "bw", "corrupt", "touchcheck", "reedit"};
+        else if (prop == "C02") kinds = {"bw", "bw", "bw", "bw", "bw", "bw", "corrupt", "touchcheck", "reedit", "sanitise_any"};
         else if (prop == "C03") kinds = {"br", "br", "br", "foreach", "foreach", "foreach", "corrupt", "corrupt", "reedit"};
         else if (prop == "C04") kinds = {"corrupt", "restart", "probe_ops", "poststate", "redefect", "reedit"};
         else kinds = {"set", "set", "set", "bit_set", "bit_clear", "bw", "bw", "bw", "sanitise", "sanitise_any", "corrupt", "reedit"};
@@ -606,6 +629,7 @@ struct RegHarness : Harness {
         if (macro) p["macro"] = 1;
         else if (bulk) p["bulk"] = (long long)bulk;
         else if (r.chance(1, 12)) p["lift"] = 1;
+        else if (r.chance(1, 12)) p["spread"] = (long long)r.range(1, 5);
         { static const int DIRT[] = {0, 0, 0, 0xff, 0xa5, 0x80, 0x01, 0x7f}; p["dirt"] = DIRT[r.below(8)]; p["dirt_tbl"] = r.chance(1, 2) ? 0 : DIRT[r.below(8)]; }
         if (bulk) { Json tj = Json::obj(); tj["be"] = ts.be; tj["areas"] = Json::arr(); tj["regs"] = Json::arr(); p["table"] = tj; } else
         p["table"] = spec_json(ts);
@@ -631,6 +655,7 @@ struct RegHarness : Harness {
         S.macro = plan.geti("bulk") <= 0 && plan.geti("macro") != 0;
         if (S.macro) { S.spec = Sim::macro_spec(plan.get("table").geti("be") != 0); COUNT("probe.table_written_with_header_macros"); }
         S.lift = !S.macro && plan.geti("lift") != 0;
+        S.spread = (!S.macro && !S.lift && plan.geti("bulk") <= 0) ? (int)(plan.geti("spread") & 7) : 0;
         if (S.lift) COUNT("probe.table_ends_at_top_of_address_space");
         g_dirt = (uint8_t)(plan.geti("dirt") & 0xff); g_dirt_tbl = (uint8_t)(plan.geti("dirt_tbl") & 0xff);
         if (g_dirt != g_dirt_tbl) COUNT("probe.value_objects_with_stale_octets");
@@ -1102,7 +1127,8 @@ struct RegHarness : Harness {
         IterCtl ic; ic.c = &c;
         const Json &rj = o.get("ret"); for (size_t k = 0; k < rj.size(); ++k) { int64_t v = rj.ati(k); if (v > 1000) v = 1000; if (v < -1000) v = -1000; ic.ret.push_back(v); }
         if (!S.fits_address_space(addr, len)) return;
-        RegisterAccess a = S.down(register_foreach_in(&S.tbl, S.up(addr), len, iter_cb, &ic));
+        if (S.uplen(addr, len) > 0xffffffffull) return;   // a range of 2^32 addresses cannot be asked for
+        RegisterAccess a = S.down(register_foreach_in(&S.tbl, S.up(addr), (uint32_t)S.uplen(addr, len), iter_cb, &ic));
         c.ev(EV_API, 7, (uint64_t)a.code, a.address); c.ops_done++; c.execs++;
         // expected visits
         std::vector<uint32_t> want; int want_code = REG_ACCESS_SUCCESS; uint32_t want_addr = 0;
